@@ -244,7 +244,11 @@ func TestVerifC08Child(t *testing.T) {
 	for round := 0; round < rounds; round++ {
 		// connect, lose the connection k times, close
 		vFsmRun(r, "connect-cut-close", nil, func(w *vFsmWorld) string {
-			for i, n := 0, 1+r.Intn(3); i < n; i++ {
+			losses := 1 + r.Intn(3)
+			if round == 0 {
+				losses = 2 + r.Intn(2) // what holds for the first transport must hold for the later ones as well
+			}
+			for i, n := 0, losses; i < n; i++ {
 				if !w.waitState(connectivity.Ready, 5*time.Second) {
 					return "not-ready-again"
 				}
